@@ -671,6 +671,49 @@ def _chain_start(toks, i):
     return k + 1
 
 
+def n29u_map_unzip_method(src, log, name):
+    """let (A, B): (Vec<_>, Vec<_>) = RECV.iter().map(|P| { BODY }).unzip();   (BODY is cut separately as method NAME, rule X5)
+         ->  let mut A = Vec::new(); let mut B = Vec::new();
+             for __vx_m in 0..RECV.len() { let __vx_item = self.NAME(&RECV[__vx_m]); A.push(__vx_item.0); B.push(__vx_item.1); }
+    (std: map + unzip call the closure once per element, in order, and distribute the pairs over two vectors in order)"""
+    toks = lex(src)
+    for i, t in enumerate(toks):
+        if not (t.text == "let" and t.kind == "ident" and i + 1 < len(toks) and toks[i + 1].text == "("):
+            continue
+        pc = toks[i + 1].mate
+        names = _split_args(src, toks, i + 1)
+        if len(names) != 2 or not all(n.strip().isidentifier() for n in names):
+            continue
+        d = t.depth
+        k = pc + 1
+        while k < len(toks) and not (toks[k].text == ";" and toks[k].depth == d):
+            if toks[k].kind == "open":
+                k = toks[k].mate
+            k += 1
+        semi = k
+        if semi >= len(toks) or "".join(x.text for x in toks[semi - 4:semi]) != ".unzip()":
+            continue
+        eq = next((x for x in range(pc + 1, semi) if toks[x].text == "=" and toks[x].depth == d), None)
+        if eq is None or "".join(x.text for x in toks[pc + 1:eq]) != ":(Vec<_>,Vec<_>)":
+            continue
+        m = next((x for x in range(eq + 1, semi) if toks[x].depth == d and [y.text for y in toks[x:x + 6]] == [".", "iter", "(", ")", ".", "map"] and toks[x + 6].text == "("), None)
+        if m is None:
+            continue
+        op = m + 6
+        cl = toks[op].mate
+        if cl != semi - 5:
+            continue
+        if not (toks[op + 1].text == "|" and toks[op + 2].kind == "ident" and toks[op + 3].text == "|" and toks[op + 4].text == "{" and toks[op + 4].mate == cl - 1):
+            continue
+        recv = "".join(src[toks[eq + 1].start:toks[m].start].split())
+        a, b = names[0].strip(), names[1].strip()
+        rep = (f"let mut {a} = Vec::new(); let mut {b} = Vec::new(); for __vx_m in 0..{recv}.len() /*vx:unzip:{a}*/ {{ "
+               f"let __vx_item = self.{name}(&{recv}[__vx_m]); {a}.push(__vx_item.0); {b}.push(__vx_item.1); }}")
+        log.append(f"N29 let ({a}, {b}) = {recv}.iter().map(<closure body cut as {name}>).unzip() -> loop calling self.{name} per element, in order")
+        return src[:t.start] + rep + src[toks[semi].end:]
+    raise Unsupported(f"N29: no `let (A, B): (Vec<_>, Vec<_>) = R.iter().map(|p| {{..}}).unzip();` for {name}")
+
+
 def n29_map_collect_method(src, log, name):
     """let X = RECV.iter().map(|P| { BODY }).collect::<Vec<_>>();   (the closure is cut separately as method NAME, rule X3)
          ->  let mut X = Vec::new(); for __vx_m in 0..RECV.len() { let __vx_item = self.NAME(&RECV[__vx_m]); X.push(__vx_item); }
@@ -1724,6 +1767,8 @@ def normalise(src, rules, log, ctx=None):
             src = n1_closure_patterns(src, log)
         elif r == "n7sum":
             src = n7_sum(src, log)
+        elif r.startswith("n29u:"):
+            src = n29u_map_unzip_method(src, log, r.split(":", 1)[1])
         elif r.startswith("n29:"):
             src = n29_map_collect_method(src, log, r.split(":", 1)[1])
         elif r == "n10":
